@@ -41,7 +41,8 @@ CLAIMED = {
     "C06": ("other", "BOUNDED contract checking on the real code, not a proof for all sizes (hence category 'other'): D1/D2 (Kani, real ring buffer at fixed capacities, arbitrary invariant start state, symbolic sink behaviour incl. partial acceptance and errors): "
             "every drain path hands out a prefix of the queue in order, removes exactly the accepted bytes (also on the error path) and hashes exactly those; "
             "FD1V (Verus, unbounded, verbatim decode_blocks / decode_from_to): blocks strictly in order, exact byte accounting, the strategy only decides when to return, "
-            "the slice-to-slice call never reports more than it was given and decodes a block only when it is entirely present; FD3V (Verus): decode_all; FD7 accessors; Q3/D0 (Verus): decoding "
+            "the slice-to-slice call never reports more than it was given and decodes a block only when it is entirely present; FD3V (Verus, unbounded): decode_all and StreamingDecoder::read on their verbatim bodies (a short read only when the frame is finished, Ok(0) only when finished and "
+            "drained, at most the missing amount is requested from decode_blocks); FD7 accessors; Q3/D0 (Verus): decoding "
             "reads the window only at distance <= offset; SD1 (Kani, bounded script): StreamingDecoder::read serves min(request, available), short reads only at the end "
             "of the frame, asks for at most the missing amount. Schedule independence of the complete output is the composition argued in DESIGN.md.", "DESIGN.md 4 C06"),
     "C07": ("proof", "FD5 (Verus, verbatim bodies, unbounded Vec sizes): DecoderScratch::reset establishes, from ANY prior state, exactly the state DecoderScratch::new "
